@@ -431,8 +431,9 @@ DESCRIPTION
 int
 Hclose(int32 file_id)
 {
-    filerec_t *file_rec; /* file record pointer */
-    int        ret_value = SUCCEED;
+    filerec_t *file_rec;             /* file record pointer */
+    int        close_failed = FALSE; /* the underlying close (its final flush) reported an error */
+    int        ret_value    = SUCCEED;
 
     /* Clear errors and check args and all the boring stuff. */
     HEclear();
@@ -470,9 +471,11 @@ Hclose(int32 file_id)
         if (HIsync(file_rec) == FAIL)
             HGOTO_ERROR(DFE_INTERNAL, FAIL);
 
-        /* otherwise, nothing should still be using this file, close it */
-        /* ignore any close error */
-        HI_CLOSE(file_rec->file);
+        /* otherwise, nothing should still be using this file, close it;
+           a close error (data still buffered could not be written) is
+           reported once the file record has been released */
+        if (HI_CLOSE(file_rec->file) == FAIL)
+            close_failed = TRUE;
 
         if (HTPend(file_rec) == FAIL)
             HGOTO_ERROR(DFE_INTERNAL, FAIL);
@@ -483,6 +486,9 @@ Hclose(int32 file_id)
 
     if (HAremove_atom(file_id) == NULL)
         HGOTO_ERROR(DFE_INTERNAL, FAIL);
+
+    if (close_failed)
+        HGOTO_ERROR(DFE_CANTCLOSE, FAIL);
 
 done:
     return ret_value;
